@@ -329,7 +329,7 @@ func Run(ctx *common.Ctx) int {
 		}
 		cfgs := []cfg{{1, 20000, ""}, {7, 20000, "rel"}, {300, 20000, "nested/x/y"}, {7, 4096, "abs"}, {1, 1000000, "rel"}, {5, 1000000, ""}, {6, 20000, "samples.bin"}, {3, 20000, "round1/batch.dat"},
 			// directory names a path-handling shortcut may trip over: printf verbs, blanks, non-ASCII, a trailing separator, dot segments
-			{4, 20000, "100%done"}, {3, 20000, "a b/c%d e"}, {2, 20000, "样本/%s%v"}, {2, 20000, "trail/"}, {300, 20000, "leftover/a"}, {40, 20000, "leftover-b"}, {12, 4096, "leftover-c"}, {2, 20000, "./dot/../dot2/%%"}, {2, 4096, "cwd%"}}
+			{4, 20000, "100%done"}, {3, 20000, "a b/c%d e"}, {2, 20000, "样本/%s%v"}, {2, 20000, "trail/"}, {3, 20000, ".samples"}, {2, 20000, "a/.b/c"}, {3, 20000, "."}, {300, 20000, "leftover/a"}, {40, 20000, "leftover-b"}, {12, 4096, "leftover-c"}, {2, 20000, "./dot/../dot2/%%"}, {2, 4096, "cwd%"}}
 		if !quick {
 			cfgs = append(cfgs, cfg{300, 4096, ""}, cfg{33, 1000000, "abs"})
 		}
@@ -420,7 +420,7 @@ func Run(ctx *common.Ctx) int {
 			_ = os.RemoveAll(dir)
 		}
 	}
-	samples = append(samples, map[string]interface{}{"family": "end-to-end", "runs": e2e, "configs": "s in {1,5,7,300(,33)} x n in {20000, 10^6, 4096} x output forms (default, relative, nested, absolute, names ending in .bin/.dat, names with printf verbs / blanks / non-ASCII / trailing separator / dot segments, a working directory with such a name, a directory holding the leftovers of an interrupted run of the same sample size with a missing, an empty and a short sample inside the finished prefix), then rddetector -i on the result"})
+	samples = append(samples, map[string]interface{}{"family": "end-to-end", "runs": e2e, "configs": "s in {1,5,7,300(,33)} x n in {20000, 10^6, 4096} x output forms (default, relative, nested, absolute, names ending in .bin/.dat, names with printf verbs / blanks / non-ASCII / trailing separator / dot segments, a working directory with such a name, the working directory itself (.), hidden directories (.samples, a/.b/c), a directory holding the leftovers of an interrupted run of the same sample size with a missing, an empty and a short sample inside the finished prefix), then rddetector -i on the result"})
 	sigs := make([]string, 0)
 	for k := range m.Signatures {
 		sigs = append(sigs, k)
